@@ -58,7 +58,11 @@ func (g *Gen) randBytes(n int, lookTags []string) []byte {
 			out = append(out, byte('0'+g.R.Intn(10)))
 		case 2:
 			if len(lookTags) > 0 {
-				out = append(out, []byte(lookTags[g.R.Intn(len(lookTags))]+"=")...)
+				t := lookTags[g.R.Intn(len(lookTags))] + "="
+				out = append(out, []byte(t)...)
+				if g.R.Intn(3) == 0 { // the text twice in a row ("141=141=Y")
+					out = append(out, []byte(t)...)
+				}
 			}
 		case 3:
 			b := byte(g.R.Intn(256))
@@ -369,7 +373,11 @@ var rawTemplates = func() []Msg {
 		Body: []Node{{K: "grp", Tag: S2B("146"), Tmpl: []Node{kv("55", "string"),
 			{K: "grp", Tag: S2B("454"), Tmpl: []Node{kv("455", "string"), kv("456", "int")}},
 			{K: "cmp", Items: []Node{kv("460", "int"), kv("461", "float")}}}}, kv("1", "time")}}
-	out := []Msg{plain, grp, nested}
+	typesT := Msg{Tags: stdTags, BeginString: S2B("FIX.4.4"), MsgType: S2B("A"),
+		Header: []Node{kv("34", "int"), kv("43", "bool"), kv("97", "bool")},
+		Body: []Node{kv("98", "string"), kv("141", "bool"), kv("464", "bool"), kv("383", "uint"), kv("96", "raw"), kv("44", "float"), kv("52", "time"),
+			{K: "grp", Tag: S2B("384"), Tmpl: []Node{kv("372", "string"), kv("385", "bool")}}}}
+	out := []Msg{plain, grp, nested, typesT}
 	for i := range out {
 		out[i].Norm()
 	}
@@ -389,7 +397,8 @@ func (g *Gen) RawInputs() []*RawObs {
 		}
 		return b
 	}
-	tagsIn := []string{"8", "9", "35", "10", "34", "49", "112", "7", "98", "384", "372", "385", "553", "146", "55", "454", "455", "456", "460", "461", "1"}
+	tagsIn := []string{"8", "9", "35", "10", "34", "49", "112", "7", "98", "384", "372", "385", "553", "146", "55", "454", "455", "456", "460", "461", "1",
+		"43", "97", "141", "464", "383", "96", "44", "52"}
 	fieldy := func(n int) []byte {
 		var b []byte
 		for i := 0; i < n; i++ {
